@@ -190,7 +190,8 @@ def srange_array(sr):
     return a
 
 
-pvals = st.one_of(st.sampled_from([0.5, 0.1, 0.9, 0.01, 0.99, 0.95, 0.05]), st.floats(0.01, 0.99))
+# p = 0.5 is the one value at which "asymmetric" and "symmetric" could be confused (weights 0.5, not 1): extra mass there
+pvals = st.one_of(st.sampled_from([0.5, 0.5, 0.5, 0.1, 0.9, 0.01, 0.99, 0.95, 0.05]), st.floats(0.01, 0.99), st.just(0.5))
 
 
 def loglam(lo, hi):
